@@ -3,6 +3,8 @@ import re
 from .common import *
 from ..engine import AnalysisError, show, strip, short, walk, last_seg, tree_calls
 
+strip = simp   # fold projections of in-place tuples (`let (lo, hi) = (self.min, self.max)`) before comparing trees
+
 PROP = "C38"
 LEVEL = "proof"
 QUICK = ["K0"]
